@@ -28,6 +28,11 @@ def _one(job):
     group = execnet.Group()
     try:
         gw = matrix.make_gateway(group, kind, execmodel, python)
+        if kind == "popen" and (env or {}).get("_DROP_PYTHONPATH"):
+            # a plain popen worker runs the initiator's copy of execnet, whatever else is installed or on the child's default path
+            there = gw.remote_exec("import execnet, os\nchannel.send(os.path.realpath(os.path.dirname(execnet.__file__)))").receive(20)
+            if there != os.path.realpath(os.path.dirname(execnet.__file__)):
+                return {"T": [], "err": "WorkerRunsAnotherCopyOfExecnet"}
         T = matrix.run_programs(gw, random.Random(seed), big)
         return {"T": json.loads(json.dumps(T)), "err": ""}
     except BaseException as e:  # noqa: BLE001
